@@ -48,29 +48,23 @@ def _region_skip(db):
         for c in t.columns:
             if region_active('c02_falsy_default_dropped') and c.default is not None and (c.default == 0 or c.default == '' or c.default is False):
                 return True
-            if region_active('c02_type_needs_quotes') and isinstance(c.type, str) and _bare_type_breaks(c.type):
-                return True
             if region_active('c13_default_bool_word') and isinstance(c.default, str) and c.default.lower() in ('true', 'false', 'null') \
                     and c.default != 'NULL':
                 return True
             if region_active('c13_multiline_in_settings_or_raw_site') and docs.has_char(c.note.text, '\n'):
                 return True
         for ix in t.indexes:
-            if region_active('c02_index_subject_bare'):
-                for sj in ix.subjects:
-                    if type(sj).__name__ == 'Column' and _has_space_like(sj.name):
-                        return True
             if region_active('c13_multiline_in_settings_or_raw_site') and (docs.has_char(ix.note.text, '\n') or (ix.name and docs.has_char(ix.name, '\n'))):
                 return True
-    for r in db.refs:
-        if region_active('c02_name_rendered_bare') and r.name and not r.inline and _has_space_like(r.name):
-            return True
-    for s in db.sticky_notes:
-        if region_active('c02_name_rendered_bare') and _has_space_like(s.name):
-            return True
     if db.project is not None:
         if region_active('c13_multiline_in_settings_or_raw_site') and any(docs.has_char(v, '\n') for v in db.project.items.values()):
             return True
+    if region_active('c02_ref_column_name_trimmed'):
+        for r in db.refs:
+            for c in list(r.col1) + list(r.col2):
+                n = c.name
+                if len(n) == 0 or docs.has_char(n, ',') or n[0] == ' ' or n[0] == '(' or n[0] == ')' or n[-1] == ' ' or n[-1] == '(' or n[-1] == ')':
+                    return True
     for e in db.enums:
         if region_active('c02_enum_name_with_dot') and (docs.has_char(e.name, '.') or docs.has_char(e.schema, '.')):
             return True
@@ -78,31 +72,6 @@ def _region_skip(db):
             if region_active('c13_multiline_in_settings_or_raw_site') and docs.has_char(it.note.text, '\n'):
                 return True
     return False
-
-
-def _bare_type_breaks(t):
-    """a type text that is not re-parseable when written bare: anything but  word | word[] | word.word | word(args)"""
-    n = len(t)
-    i = 0
-    while i < n:
-        o = ord(t[i])
-        if not (((48 <= o) & (o <= 57)) | ((65 <= o) & (o <= 90)) | ((97 <= o) & (o <= 122)) | (o == 95)):
-            break
-        i += 1
-    if i == 0:
-        return True
-    rest = t[i:]
-    if rest == '' or rest == '[]':
-        return False
-    if rest[0] == '(' and rest[-1] == ')':
-        return False
-    if rest[0] == '.':
-        for ch in rest[1:]:
-            o = ord(ch)
-            if not (((48 <= o) & (o <= 57)) | ((65 <= o) & (o <= 90)) | ((97 <= o) & (o <= 122)) | (o == 95)):
-                return True
-        return len(rest) == 1
-    return True
 
 
 def _roundtrip(db, kw=None):
@@ -303,10 +272,6 @@ def instances(tier):
         if i['factory'] == 'column':
             if p['dkind'] == 'false':
                 vac.append('c02_falsy_default_dropped')
-            if p['tkind'] == 'quoted':
-                vac.append('c02_type_needs_quotes')
-        if i['factory'] == 'index' and p['shape'] in ('quoted', 'composite', 'mixed'):
-            vac.append('c02_index_subject_bare')
         if i['factory'] == 'table' and p['note_form'] == 'triple':
             pass
         pp_ = dict(p)
